@@ -19,6 +19,13 @@
 (*   Take(i)       readResponse(): the caller receives the body            *)
 (*   GiveUp(i)     the caller's context ends (or the connection closes)    *)
 (*   Finish(i)     call()'s deferred clean-up deletes the entry            *)
+(*   PeerReq       the runtime sends a REQUEST frame; its handler goroutine  *)
+(*   Handle(k)     runs the host's handler and then                        *)
+(*   Reply(k)      hands the response to the writer goroutine (blocks      *)
+(*                 while the writer is stuck behind a peer that does not   *)
+(*                 read), or                                               *)
+(*   AbortReply(k) gives up when the connection is closed (sendMessage     *)
+(*                 selects on closeCh and on the reader's context)         *)
 (*   Stall/Resume  the peer stops / resumes reading its socket             *)
 (*   Close         Close(): socket closed, then waits for the reader       *)
 (*                 goroutine, which waits for every handler goroutine      *)
@@ -32,6 +39,7 @@ EXTENDS Integers, Sequences, FiniteSets, TLC, Json
 
 CONSTANTS MaxCalls,        \* host calls (ids 1..MaxCalls)
           MaxFrames,       \* response frames the peer may send
+          MaxReqs,         \* request frames the peer may send
           DeleteOnLookup,  \* BOOLEAN
           Record           \* BOOLEAN: keep the externally visible history in `script` (generation); FALSE for design runs
 
@@ -47,14 +55,15 @@ VARIABLES call,     \* call[i] \in {"none", "registered", "waiting", "got", "gav
           closed,   \* Close() was called
           wbusy,    \* the writer goroutine is stuck in a write to a peer that does not read (it took one message with it)
           nst,      \* number of times the peer has stalled so far (at most one stall per behaviour)
+          rq,       \* handler goroutines of the peer's request frames: sequence of "new" | "handled" | "replied" | "aborted"
           script    \* the externally controllable part of the behaviour (host API calls and peer frames), for replay
-vars == <<call, pend, buf, frames, hs, stalled, closed, wbusy, nst, script>>
+vars == <<call, pend, buf, frames, hs, stalled, closed, wbusy, nst, rq, script>>
 
 Log(e) == script' = IF Record THEN Append(script, e) ELSE script
 
 Init ==
     /\ call = [i \in Ids |-> "none"] /\ pend = {} /\ buf = [i \in Ids |-> 0] /\ frames = 0 /\ hs = <<>>
-    /\ stalled = FALSE /\ closed = FALSE /\ wbusy = FALSE /\ nst = 0 /\ script = <<>>
+    /\ stalled = FALSE /\ closed = FALSE /\ wbusy = FALSE /\ nst = 0 /\ rq = <<>> /\ script = <<>>
 
 Next1(i) == \A j \in 1..(i - 1) : call[j] # "none"      \* ids are handed out in order
 
@@ -62,13 +71,13 @@ Register(i) ==
     /\ ~closed /\ call[i] = "none" /\ Next1(i)
     /\ call' = [call EXCEPT ![i] = "registered"] /\ pend' = pend \cup {i}
     /\ Log([a |-> "call", id |-> i])
-    /\ UNCHANGED <<buf, frames, hs, stalled, closed, wbusy, nst>>
+    /\ UNCHANGED <<buf, frames, hs, stalled, closed, wbusy, nst, rq>>
 
 Enqueue(i) ==     \* the writer takes the message (outCh is unbuffered); if the peer does not read, the writer then blocks in the write
     /\ call[i] = "registered" /\ ~wbusy
     /\ call' = [call EXCEPT ![i] = "waiting"]
     /\ wbusy' = stalled
-    /\ UNCHANGED <<pend, buf, frames, hs, stalled, closed, nst, script>>
+    /\ UNCHANGED <<pend, buf, frames, hs, stalled, closed, nst, script, rq>>
 
 PeerResp(i) ==
     /\ ~closed /\ frames < MaxFrames
@@ -76,7 +85,7 @@ PeerResp(i) ==
     /\ frames' = frames + 1
     /\ hs' = Append(hs, [id |-> i, st |-> "new"])
     /\ Log([a |-> "resp", id |-> i])
-    /\ UNCHANGED <<call, pend, buf, stalled, closed, wbusy, nst>>
+    /\ UNCHANGED <<call, pend, buf, stalled, closed, wbusy, nst, rq>>
 
 Lookup(h) ==
     /\ hs[h].st = "new"
@@ -85,52 +94,75 @@ Lookup(h) ==
             /\ pend' = IF DeleteOnLookup THEN pend \ {hs[h].id} ELSE pend
        ELSE /\ hs' = [hs EXCEPT ![h].st = "dropped"]     \* "no request with id is outstanding"
             /\ pend' = pend
-    /\ UNCHANGED <<call, buf, frames, stalled, closed, wbusy, nst, script>>
+    /\ UNCHANGED <<call, buf, frames, stalled, closed, wbusy, nst, script, rq>>
 
 Send(h) ==
     /\ hs[h].st = "sending" /\ buf[hs[h].id] = 0
     /\ buf' = [buf EXCEPT ![hs[h].id] = 1]
     /\ hs' = [hs EXCEPT ![h].st = "done"]
-    /\ UNCHANGED <<call, pend, frames, stalled, closed, wbusy, nst, script>>
+    /\ UNCHANGED <<call, pend, frames, stalled, closed, wbusy, nst, script, rq>>
 
 Take(i) ==
     /\ call[i] = "waiting" /\ buf[i] = 1
     /\ buf' = [buf EXCEPT ![i] = 0] /\ call' = [call EXCEPT ![i] = "got"]
-    /\ UNCHANGED <<pend, frames, hs, stalled, closed, wbusy, nst, script>>
+    /\ UNCHANGED <<pend, frames, hs, stalled, closed, wbusy, nst, script, rq>>
 
 GiveUp(i) ==       \* context cancelled / deadline / connection closed while queued or waiting
     /\ call[i] \in {"registered", "waiting"}
     /\ call' = [call EXCEPT ![i] = "gaveup"]
     /\ (IF closed THEN script' = script ELSE Log([a |-> "cancel", id |-> i]))
-    /\ UNCHANGED <<pend, buf, frames, hs, stalled, closed, wbusy, nst>>
+    /\ UNCHANGED <<pend, buf, frames, hs, stalled, closed, wbusy, nst, rq>>
 
 Finish(i) ==
     /\ call[i] \in {"got", "gaveup"}
     /\ call' = [call EXCEPT ![i] = "done"] /\ pend' = pend \ {i}
-    /\ UNCHANGED <<buf, frames, hs, stalled, closed, wbusy, nst, script>>
+    /\ UNCHANGED <<buf, frames, hs, stalled, closed, wbusy, nst, script, rq>>
+
+PeerReq ==
+    /\ ~closed /\ Len(rq) < MaxReqs
+    /\ rq' = Append(rq, "new")
+    /\ Log([a |-> "preq", id |-> Len(rq) + 1])
+    /\ UNCHANGED <<call, pend, buf, frames, hs, stalled, closed, wbusy, nst>>
+
+Handle(k) ==
+    /\ rq[k] = "new"
+    /\ rq' = [rq EXCEPT ![k] = "handled"]
+    /\ UNCHANGED <<call, pend, buf, frames, hs, stalled, closed, wbusy, nst, script>>
+
+Reply(k) ==      \* the writer takes the response; if the peer does not read, the writer then blocks in the write
+    /\ rq[k] = "handled" /\ ~wbusy /\ ~closed
+    /\ rq' = [rq EXCEPT ![k] = "replied"]
+    /\ wbusy' = stalled
+    /\ UNCHANGED <<call, pend, buf, frames, hs, stalled, closed, nst, script>>
+
+AbortReply(k) ==
+    /\ rq[k] = "handled" /\ closed
+    /\ rq' = [rq EXCEPT ![k] = "aborted"]
+    /\ UNCHANGED <<call, pend, buf, frames, hs, stalled, closed, wbusy, nst, script>>
 
 Stall ==
     /\ ~closed /\ ~stalled /\ nst = 0
     /\ stalled' = TRUE /\ nst' = 1
     /\ Log([a |-> "stall", id |-> 0])
-    /\ UNCHANGED <<call, pend, buf, frames, hs, closed, wbusy>>
+    /\ UNCHANGED <<call, pend, buf, frames, hs, closed, wbusy, rq>>
 
 Resume ==
     /\ stalled
     /\ stalled' = FALSE /\ wbusy' = FALSE
     /\ (IF closed THEN script' = script ELSE Log([a |-> "resume", id |-> 0]))
-    /\ UNCHANGED <<call, pend, buf, frames, hs, closed, nst>>
+    /\ UNCHANGED <<call, pend, buf, frames, hs, closed, nst, rq>>
 
 Close ==       \* the socket is closed: a stuck write fails, the writer is free again
     /\ ~closed
     /\ closed' = TRUE /\ stalled' = FALSE /\ wbusy' = FALSE
     /\ Log([a |-> "close", id |-> 0])
-    /\ UNCHANGED <<call, pend, buf, frames, hs, nst>>
+    /\ UNCHANGED <<call, pend, buf, frames, hs, nst, rq>>
 
 Next ==
     \/ \E i \in Ids : Register(i) \/ Enqueue(i) \/ Take(i) \/ GiveUp(i) \/ Finish(i)
     \/ \E i \in AnyId : PeerResp(i)
     \/ \E h \in DOMAIN hs : Lookup(h) \/ Send(h)
+    \/ PeerReq \/ (\E k \in DOMAIN rq : Handle(k) \/ Reply(k) \/ AbortReply(k))
     \/ Stall \/ Resume \/ Close
 
 Spec == Init /\ [][Next]_vars
@@ -151,10 +183,11 @@ OneAnswer == \A i \in Ids : Cardinality({h \in DOMAIN hs : hs[h].id = i /\ hs[h]
 (* liveness, under fairness of the internal steps: once Close is called every handler goroutine ends *)
 Fairness == /\ \A i \in Ids : WF_vars(Enqueue(i)) /\ WF_vars(Take(i)) /\ WF_vars(Finish(i)) /\ WF_vars(GiveUp(i))
             /\ \A h \in 1..MaxFrames : WF_vars(h \in DOMAIN hs /\ Lookup(h)) /\ WF_vars(h \in DOMAIN hs /\ Send(h))
+            /\ \A k \in 1..MaxReqs : WF_vars(k \in DOMAIN rq /\ Handle(k)) /\ WF_vars(k \in DOMAIN rq /\ AbortReply(k))
 FairSpec == Spec /\ Fairness
-CloseReturns == closed ~> (\A h \in DOMAIN hs : hs[h].st \in {"done", "dropped"})
+CloseReturns == closed ~> ((\A h \in DOMAIN hs : hs[h].st \in {"done", "dropped"}) /\ (\A k \in DOMAIN rq : rq[k] \in {"replied", "aborted"}))
 
-TypeOK == /\ pend \subseteq Ids /\ frames \in 0..MaxFrames /\ Len(hs) = frames
+TypeOK == /\ pend \subseteq Ids /\ frames \in 0..MaxFrames /\ Len(hs) = frames /\ Len(rq) <= MaxReqs
 
 -----------------------------------------------------------------------------
 (* generation: one script per distinct externally visible history *)
